@@ -500,6 +500,16 @@ Definition nc_insert_hint (c : nc) (p : pos) (kr vr : id) : M nc :=
         end
   end.
 
+(* the MultiMap case the function above does not decide (hint_tie: key of the hinted item <= key, key of
+   the item behind it == key): the code calls insert(&insertPos->right, insertPos, key, value); the
+   descent compares with the keys of the hinted item's right subtree (a part, given by the tree shape, of
+   the run of equal keys that follows) and links the new item j places behind the hinted item's
+   successor position - j is an input of the model *)
+Definition nc_insert_tie (c : nc) (p : pos) (kr vr : id) (j : nat) : M nc :=
+  _ <- rd kr ;;
+  _ <- rd_list (sel_ids (ckind c) (citems c)) ;;
+  nc_fresh c (S (pos_idx p (length (citems c))) + j) kr (VRef vr).
+
 (* Map::insert(const Map& other): the first item by insert(&root, 0, ...), every further item by
    the hinted insert, the hint being the iterator the previous insertion returned - the item that
    carries the previous key (pk: that key in `other`).  Its index is looked up by value. *)
@@ -882,6 +892,23 @@ Definition step (st : state) (o : op) : res (bool * state) :=
   | OSort x =>
       match getv vs x with
       | Some (CN n) => if can_sort (ckind n) then put st x (lift CN (nc_sort n)) else skip st
+      | _ => skip st
+      end
+  | OInsTie x p ka va j =>
+      match getv vs x with
+      | Some (CN n) =>
+          if can_hint (ckind n) then
+            match marg_key vs ka, marg_val vs va with
+            | Some rk, Some rv =>
+                if hint_tie (ckind n) (map (val (sw st)) (sel_ids (ckind n) (citems n)))
+                            (pos_idx p (length (citems n))) (rarg_val (sw st) rk) &&
+                   ssortedb (insert_at (S (pos_idx p (length (citems n))) + j) (rarg_val (sw st) rk)
+                                       (map (val (sw st)) (sel_ids (ckind n) (citems n))))
+                then put st x (lift CN (with_arg rk (fun kr => with_arg rv (fun vr => nc_insert_tie n p kr vr j))))
+                else skip st
+            | _, _ => skip st
+            end
+          else skip st
       | _ => skip st
       end
   | OInsVia x f ka va =>
